@@ -3,20 +3,6 @@ From Coq Require Import List Bool Arith.
 Import ListNotations.
 Require Import PonyV.Model.C22Memo PonyV.Model.C22Sched PonyV.Proofs.C22Proofs.
 
-(* Query._get_translator: stale entry (built for value 0); thread 0 (value 1) and thread 1 (value 2) both look it up,
-   then both execute `del cache[key]`: the second one raises KeyError. *)
-Theorem C22_translator_refuted :
-  exists sched t, t_res (t_thr (trun false (tinit (Some 0) (fun t => S t)) sched) t) = TKeyError.
-Proof. exists [0; 1; 0; 1], 1. vm_compute. reflexivity. Qed.
-Print Assumptions C22_translator_refuted.
-
-(* the same schedule, with the log of dict operations, as replayed on real threads *)
-Theorem C22_translator_refuted_trace :
-  toutcome false (Some 0) [1; 2] [0; 1; 0; 1]
-  = ([TNone; TKeyError], [(0, DGet); (1, DGet); (0, DDel); (1, DDel)], None).
-Proof. exact translator_refuted. Qed.
-Print Assumptions C22_translator_refuted_trace.
-
 (* Cross-thread object use: the unguarded operations are not rejected. *)
 Theorem C22_cross_thread_refuted : forall o loaded, unguarded o loaded = true -> guard o loaded = false.
 Proof. exact guard_refuted. Qed.
